@@ -68,7 +68,24 @@ impl Value {
 
     pub fn try_negate(&self) -> Result<Option<Self>> {
         match self {
-            Self::Number(number) => Ok(number.negate().map(Value::Number)),
+            Self::Number(number) => {
+                let Some(negated) = number.negate() else {
+                    return Ok(None);
+                };
+
+                // the most negative value of a kind has no negation; the interpreter fails on it
+                let representable = match &negated {
+                    Number::Integer(digits) => digits.parse::<i32>().is_ok(),
+                    Number::BigInt(digits) => digits.parse::<i128>().is_ok(),
+                    _ => true,
+                };
+
+                if !representable {
+                    bail!("this operation is guaranteed to fail at runtime, so it cannot be allowed")
+                }
+
+                Ok(Some(Value::Number(negated)))
+            }
             Self::MathExpr(expr) => {
                 let x = expr.try_constexpr_eval()?;
 
